@@ -1,131 +1,427 @@
 """Translator for C18 (and reused by C05): regenerates, from the working tree's source, the facts about
 tween / view-deriver ordering that the theorems rest on.
 
- * config/views.py  add_default_view_derivers : the default chain (name, under, over) in source order,
-                    and the trailing csrf_view call
- * config/views.py  add_view_deriver          : constructor arguments of the TopologicalSorter, the defaults
-                    for under/over, the `derivers.add(name, deriver, before=over, after=under)` keyword mapping,
-                    the mapped_view rule
- * config/views.py  _apply_view_derivers      : outer_derivers list and `reversed(outer_derivers + derivers.sorted())`
- * config/tweens.py Tweens.__init__/add_implicit/__call__ : sorter constructor arguments, keyword mapping,
-                    `use[::-1]`, explicit-over-implicit selection
-Anything that does not have the expected shape is emitted as the string "unknown", which makes the
-`decide`d obligations in Props/C18.lean (and C05) fail.
+Robustness round: every fact is now OBSERVED by RUNNING the code of the tree under test (child interpreter whose
+sys.path starts with `src_root`, with a timeout); no AST / source-text matching is left:
+
+ * default deriver chain       a Configurator subclass records the `add_view_deriver(name, under, over)` calls that
+                               `add_default_view_derivers` makes (`defaultDerivers`), and the state of the resulting
+                               `IViewDerivers` sorter (names, name2after, name2before, req_after, req_before, order) is
+                               emitted as `defaultSorterState` / `defaultSorterOrder`
+ * sorter constructor args     read from the sorter objects the configurator / `Tweens()` create
+                               (`default_before`, `default_after`, `first`, `last`)
+ * `add_view_deriver`          a table of 24 probe calls (defaults, single hints, unsorted tuples, duplicates, VIEW /
+   normalisation               INGRESS / mapped_view inside tuples, reserved names): for each the `after` / `before` that
+                               reached the sorter, or "rejected" (`normProbes`); the under/over -> after/before mapping
+                               and the two defaults are read off that table
+ * `_apply_view_derivers`      two logging user derivers: the one earlier in `sorted()` is entered first (`applyReversed`);
+                               `sys.setprofile` while a view is derived: the module-level `(view, info)` functions of
+                               pyramid.viewderivers / pyramid.config.views called (not nested), in order; the ones after the sorted chain are
+                               the fixed outer wrappers (`outerDerivers`)
+ * Tweens                      `add_implicit` under/over mapping from the order `implicit()` returns for two tweens
+                               added in both orders; `__call__` on 8 (explicit, implicit) combinations with logging
+                               factories: the observed enter/exit traces (`tweenCallProbes`); `add_default_tweens`
+                               from the implicit names of a fresh Configurator
+
+Fail closed: an exception, a timeout, pyramid imported from another tree, an observation that is incomplete or
+fits no expected pattern -> "unknown" / false / empty table, which makes the `decide`d obligations in
+Props/C18.lean (and C05) fail.
 """
-import ast, os
+import json, os, subprocess, sys
 
 summary = {}
 
-
-def _src(tree_src, node):
-    return ast.get_source_segment(tree_src, node)
-
-
-def _find_func(tree, cls, name):
-    for n in ast.walk(tree):
-        if isinstance(n, ast.ClassDef) and (cls is None or n.name == cls):
-            for f in n.body:
-                if isinstance(f, ast.FunctionDef) and f.name == name:
-                    return f
-    return None
+_PROBE = r'''
+import sys, os, json, warnings, inspect
+src = sys.argv[1]
+sys.path.insert(0, src)
+warnings.simplefilter('ignore')
+out = {}
 
 
-def _const_or_name(node):
-    if isinstance(node, ast.Constant):
-        return node.value if isinstance(node.value, str) else 'unknown'
-    if isinstance(node, ast.Name):
-        return node.id            # INGRESS / VIEW / MAIN / last
-    return 'unknown'
+def guard(key, fn):
+    try:
+        out[key] = fn()
+    except BaseException as e:          # fail closed, whatever it is
+        out[key] = {'error': '%s: %s' % (type(e).__name__, str(e)[:200])}
 
 
-def _sorter_ctor(func, src):
-    """keyword arguments of the TopologicalSorter(...) call inside func"""
-    for n in ast.walk(func):
-        if isinstance(n, ast.Call) and getattr(n.func, 'id', None) == 'TopologicalSorter':
-            return {k.arg: _const_or_name(k.value) if not (isinstance(k.value, ast.Constant) and k.value.value is None) else None
-                    for k in n.keywords}
-    return 'unknown'
+import pyramid
+out['pyramid_file'] = os.path.realpath(pyramid.__file__)
+
+
+def hint(x):
+    if x is None:
+        return None
+    if isinstance(x, str):
+        return [x]
+    return [str(y) for y in x]
+
+
+def ctor(s):
+    return {'default_before': s.default_before, 'default_after': s.default_after, 'first': s.first, 'last': s.last}
+
+
+def sorter_state(s):
+    return {'names': list(s.names),
+            'after': {n: hint(v) for n, v in s.name2after.items()},
+            'before': {n: hint(v) for n, v in s.name2before.items()},
+            'req_after': sorted(s.req_after), 'req_before': sorted(s.req_before),
+            'order': [[a, b] for a, b in s.order], 'ctor': ctor(s)}
+
+
+def probe_default_derivers():
+    from pyramid.config import Configurator
+    from pyramid.interfaces import IViewDerivers
+    calls = []
+
+    class Recording(Configurator):
+        def add_view_deriver(self, deriver, name=None, under=None, over=None):
+            calls.append({'name': name if name is not None else getattr(deriver, '__name__', None),
+                          'under': hint(under), 'over': hint(over)})
+            return Configurator.add_view_deriver(self, deriver, name=name, under=under, over=over)
+    config = Recording(autocommit=True)          # setup_registry -> add_default_view_derivers
+    n_init = len(calls)
+    s = config.registry.getUtility(IViewDerivers)
+    state = sorter_state(s)
+    sorted_names = [n for n, _ in s.sorted()]
+    # calling the directive again re-adds the same chain: same calls, same state (add() replaces)
+    config.add_default_view_derivers()
+    if calls[n_init:] != calls[:n_init] or sorter_state(s)['names'] != state['names']:
+        raise ValueError('add_default_view_derivers is not repeatable')
+    return {'calls': calls[:n_init], 'state': state, 'sorted': sorted_names}
+
+
+def probe_normalisation():
+    from pyramid.config import Configurator
+    from pyramid.interfaces import IViewDerivers
+    from pyramid.exceptions import ConfigurationError
+    from pyramid.viewderivers import INGRESS, VIEW
+    rows = [
+        ('p', None, None), ('p', 'a', 'b'), ('p', None, 'b'), ('p', 'a', None),
+        ('p', ('z', 'a'), ('y', 'b')), ('p', ['z', 'a', 'm'], ['y', 'b', 'n']), ('p', ('a', 'a'), ('b', 'b')),
+        ('p', 'a', VIEW), ('p', 'a', ('x', VIEW)), ('p', 'a', (VIEW, 'mapped_view')), ('p', None, (VIEW, 'a', 'z')),
+        ('mapped_view', 'rendered_view', VIEW), ('mapped_view', 'rendered_view', ('x', VIEW)),
+        ('p', INGRESS, 'b'), ('p', (INGRESS, 'x'), 'b'), ('p', ('x', INGRESS, 'a'), (VIEW, 'b')),
+        ('p', 'a', INGRESS), ('p', 'a', ('b', INGRESS)), ('p', VIEW, 'b'), ('p', ('a', VIEW), 'b'),
+        ('p', 'mapped_view', 'b'), ('p', ('a', 'mapped_view'), None), (INGRESS, None, None), (VIEW, None, None),
+    ]
+    res = []
+    for name, under, over in rows:
+        config = Configurator(autocommit=True)
+        s = config.registry.getUtility(IViewDerivers)
+        before_names = list(s.names)
+        try:
+            config.add_view_deriver(lambda view, info: view, name=name, under=under, over=over)
+        except ConfigurationError:
+            if list(s.names) != before_names:
+                raise ValueError('a rejected deriver changed the sorter')
+            res.append({'name': name, 'under': hint(under), 'over': hint(over), 'rejected': True, 'after': [], 'before': []})
+            continue
+        if name not in s.names:
+            raise ValueError('accepted deriver %r is not in the sorter' % (name,))
+        res.append({'name': name, 'under': hint(under), 'over': hint(over), 'rejected': False,
+                    'after': hint(s.name2after.get(name, ())), 'before': hint(s.name2before.get(name, ()))})
+    return res
+
+
+def probe_apply():
+    from pyramid.config import Configurator
+    from pyramid.interfaces import IViewDerivers
+    from pyramid.request import Request
+    from pyramid.response import Response
+    import pyramid.viewderivers as vd
+    log = []
+
+    def mk(tag):
+        def deriver(view, info):
+            def wrapped(context, request):
+                log.append(['enter', tag])
+                try:
+                    return view(context, request)
+                finally:
+                    log.append(['exit', tag])
+            return wrapped
+        deriver.__name__ = tag
+        return deriver
+    config = Configurator(autocommit=True)
+    config.add_view_deriver(mk('u1'), name='u1')
+    config.add_view_deriver(mk('u2'), name='u2', under='u1', over='rendered_view')
+    config.add_view(lambda context, request: (log.append(['core']), Response('ok'))[1], name='')
+    app = config.make_wsgi_app()
+    Request.blank('/').get_response(app)
+    s = config.registry.getUtility(IViewDerivers)
+    users = [n for n, _ in s.sorted() if n in ('u1', 'u2')]
+
+    # which deriver-shaped functions of pyramid.viewderivers are applied, in which order, when a view is derived
+    import pyramid.config.views as cv
+    codes = {}
+    for mod in (vd, cv):
+        for fn in vars(mod).values():
+            if inspect.isfunction(fn) and fn.__module__ in (vd.__name__, cv.__name__):
+                co = fn.__code__
+                if co.co_argcount == 2 and co.co_varnames[:2] == ('view', 'info'):
+                    codes[co] = fn.__name__
+    config2 = Configurator(autocommit=True)
+    s2 = config2.registry.getUtility(IViewDerivers)
+    sorted2 = [n for n, _ in s2.sorted()]
+    applied = []
+
+    def prof(frame, event, arg):
+        if event == 'call' and frame.f_code in codes:
+            f = frame.f_back
+            while f is not None:
+                if f.f_code in codes:
+                    return
+                f = f.f_back
+            applied.append(codes[frame.f_code])
+    sys.setprofile(prof)
+    try:
+        config2.add_view(lambda context, request: Response('ok'), name='c18probe')
+    finally:
+        sys.setprofile(None)
+    return {'users_sorted': users, 'log': log, 'sorted': sorted2, 'applied': applied}
+
+
+def probe_tweens():
+    from pyramid.config import Configurator
+    from pyramid.config.tweens import Tweens
+    from pyramid.interfaces import ITweens
+    import pyramid.tweens as pt
+    res = {'ctor': ctor(Tweens().sorter)}
+    f = lambda handler, registry: handler
+
+    def order(adds):
+        t = Tweens()
+        for name, kw in adds:
+            t.add_implicit(name, f, **kw)
+        return [n for n, _ in t.implicit()]
+    res['mapping'] = [order([('x', {}), ('y', {'over': 'x'})]), order([('y', {'over': 'x'}), ('x', {})]),
+                      order([('x', {}), ('y', {'under': 'x'})]), order([('y', {'under': 'x'}), ('x', {})])]
+
+    def call(explicit, implicit):
+        log = []
+
+        def mk(n):
+            def factory(handler, registry):
+                def tween(request):
+                    log.append(n)
+                    try:
+                        return handler(request)
+                    finally:
+                        log.append(-(n + 1))
+                return tween
+            return factory
+        t = Tweens()
+        last = None
+        for n in implicit:
+            t.add_implicit('t%d' % n, mk(n), **({} if last is None else {'under': 't%d' % last}))
+            last = n
+        for n in explicit:
+            t.add_explicit('t%d' % n, mk(n))
+        imp = [int(name[1:]) for name, _ in t.implicit()]
+        handler = t(lambda request: (log.append(1000000), 'response')[1], None)
+        if handler('request') != 'response':
+            raise ValueError('composed handler lost the response')
+        return {'explicit': list(explicit), 'implicit': imp, 'trace': log}
+    res['calls'] = [call(e, i) for e, i in (([], []), ([], [2]), ([], [2, 3]), ([], [4, 2, 3]), ([3], [2]),
+                                             ([3, 2], [2, 3, 4]), ([4, 2], []), ([2, 3, 4], [3]))]
+    config = Configurator(autocommit=True)
+    tw = config.registry.getUtility(ITweens)
+    names = [n for n, _ in tw.implicit()]
+    consts = {getattr(pt, k): k for k in ('EXCVIEW', 'MAIN', 'INGRESS') if isinstance(getattr(pt, k, None), str)}
+    res['default_tweens'] = [consts.get(n, 'unknown') for n in names]
+    res['default_explicit'] = [n for n, _ in tw.explicit]
+    return res
+
+
+guard('default_derivers', probe_default_derivers)
+guard('normalisation', probe_normalisation)
+guard('apply', probe_apply)
+guard('tweens', probe_tweens)
+sys.stdout.write('\nC18PROBE ' + json.dumps(out) + '\n')
+'''
+
+
+def run_probe(src_root, timeout=120):
+    try:
+        p = subprocess.run([sys.executable, '-c', _PROBE, src_root], stdout=subprocess.PIPE, stderr=subprocess.PIPE,
+                           timeout=timeout, cwd=src_root)
+        lines = [l for l in p.stdout.decode(errors='replace').splitlines() if l.startswith('C18PROBE ')]
+        if not lines:
+            return {'error': 'probe produced no result (rc=%s): %s' % (p.returncode, p.stderr.decode(errors='replace')[-400:])}
+        obs = json.loads(lines[-1][len('C18PROBE '):])
+    except Exception as e:
+        return {'error': 'probe failed: %s: %s' % (type(e).__name__, str(e)[:300])}
+    want = os.path.realpath(os.path.join(src_root, 'pyramid')) + os.sep
+    if not str(obs.get('pyramid_file', '')).startswith(want):
+        return {'error': 'probe imported pyramid from %s, not from %s' % (obs.get('pyramid_file'), want)}
+    return obs
+
+
+def _bad(v):
+    return v is None or (isinstance(v, dict) and 'error' in v)
+
+
+def _err(v):
+    return v.get('error') if isinstance(v, dict) else 'missing'
+
+
+_SENT = {'INGRESS': 'INGRESS', 'VIEW': 'VIEW', 'MAIN': 'MAIN'}
+
+
+def _ident(s):
+    return isinstance(s, str) and s != '' and all(c.isalnum() or c in '_.' for c in s)
+
+
+def _hint_ok(h):
+    return h is None or (isinstance(h, list) and all(_ident(x) for x in h))
+
+
+def _sim_trace(explicit, implicit):
+    use = explicit if explicit else implicit
+    return list(use) + [1000000] + [-(n + 1) for n in reversed(use)]
 
 
 def facts(src_root):
-    vpath = os.path.join(src_root, 'pyramid', 'config', 'views.py')
-    tpath = os.path.join(src_root, 'pyramid', 'config', 'tweens.py')
-    vsrc, tsrc = open(vpath).read(), open(tpath).read()
-    vt, tt = ast.parse(vsrc), ast.parse(tsrc)
+    obs = run_probe(src_root)
+    unknown = []
+    if 'error' in obs:
+        unknown.append(obs['error'])
+        obs = {}
     out = {}
+    UNK_D = [{'name': 'unknown', 'under': ['unknown'], 'over': ['unknown']}]
 
-    # --- default deriver chain
-    f = _find_func(vt, 'ViewsConfiguratorMixin', 'add_default_view_derivers')
-    chain, loop_ok, last_init, tail = [], False, None, []
-    if f is not None:
-        for st in f.body:
-            if isinstance(st, ast.Assign) and getattr(st.targets[0], 'id', None) == 'derivers' and isinstance(st.value, ast.List):
-                for el in st.value.elts:
-                    if isinstance(el, ast.Tuple) and isinstance(el.elts[0], ast.Constant):
-                        chain.append(el.elts[0].value)
-                    else:
-                        chain.append('unknown')
-            elif isinstance(st, ast.Assign) and getattr(st.targets[0], 'id', None) == 'last':
-                last_init = _const_or_name(st.value)
-            elif isinstance(st, ast.For):
-                # for name, deriver in derivers: self.add_view_deriver(deriver, name=name, under=last, over=VIEW); last = name
-                body_src = [_src(vsrc, b).replace(' ', '').replace('\n', '') for b in st.body]
-                loop_ok = (body_src == ['self.add_view_deriver(deriver,name=name,under=last,over=VIEW)', 'last=name']
-                           and _src(vsrc, st.target) == 'name, deriver' and _src(vsrc, st.iter) == 'derivers')
-            elif isinstance(st, ast.Expr) and isinstance(st.value, ast.Call) and getattr(st.value.func, 'attr', None) == 'add_view_deriver':
-                c = st.value
-                kw = {k.arg: _const_or_name(k.value) for k in c.keywords}
-                nm = kw.get('name') or (_const_or_name(c.args[1]) if len(c.args) > 1 else 'unknown')
-                tail.append({'name': nm, 'under': kw.get('under', None), 'over': kw.get('over', None)})
-    default = []
-    if f is None or not loop_ok or last_init is None or not chain:
-        default = [{'name': 'unknown', 'under': 'unknown', 'over': 'unknown'}]
+    # --- default deriver chain: the recorded calls and the resulting sorter
+    dd = obs.get('default_derivers')
+    out['default_derivers'], out['deriver_sorter'] = UNK_D, 'unknown'
+    out['default_sorter_state'], out['default_sorter_order'] = [], []
+    if _bad(dd):
+        unknown.append('default deriver probe: %s' % _err(dd))
     else:
-        last = last_init
-        for nm in chain:
-            default.append({'name': nm, 'under': last, 'over': 'VIEW'})
-            last = nm
-        default += tail
-    out['default_derivers'] = default
-    out['deriver_names'] = [d['name'] for d in default]
+        calls, st = dd['calls'], dd['state']
+        ok = (calls and all(_ident(c['name']) and _hint_ok(c['under']) and _hint_ok(c['over']) for c in calls)
+              and [c['name'] for c in calls] == st['names'] and len(set(st['names'])) == len(st['names'])
+              and all(_hint_ok(v) for v in list(st['after'].values()) + list(st['before'].values()))
+              and all(_ident(a) and _ident(b) for a, b in st['order']))
+        if not ok:
+            unknown.append('default deriver probe: recorded calls and sorter names disagree / unexpected values')
+        else:
+            out['default_derivers'] = calls
+            out['deriver_sorter'] = st['ctor']
+            out['default_sorter_state'] = [{'name': n, 'after': st['after'].get(n), 'before': st['before'].get(n),
+                                            'req_after': n in st['req_after'], 'req_before': n in st['req_before']}
+                                           for n in st['names']]
+            out['default_sorter_order'] = st['order']
+            if set(st['req_after']) - set(st['names']) or set(st['req_before']) - set(st['names']):
+                unknown.append('default deriver sorter: requirement recorded for a name that is not there')
+                out['default_sorter_state'] = []
+    out['deriver_names'] = [d['name'] for d in out['default_derivers']]
+    # compatibility view for the harness (harness/c18.py models single-string hints of the default chain)
+    for d in out['default_derivers']:
+        for k in ('under', 'over'):
+            if isinstance(d[k], list) and len(d[k]) != 1:
+                unknown.append('default deriver %s has a %s hint that is not a single name' % (d['name'], k))
+    if any('not a single name' in u for u in unknown):
+        out['default_derivers'] = UNK_D
+        out['deriver_names'] = ['unknown']
 
-    # --- add_view_deriver: defaults, sorter ctor, keyword mapping, mapped_view rule
-    f = _find_func(vt, 'ViewsConfiguratorMixin', 'add_view_deriver')
-    s = _src(vsrc, f).replace(' ', '').replace('\n', '') if f else ''
-    out['deriver_sorter'] = _sorter_ctor(f, vsrc) if f else 'unknown'
-    out['deriver_default_under'] = 'decorated_view' if "ifunderisNone:under='decorated_view'" in s else 'unknown'
-    out['deriver_default_over'] = 'rendered_view' if "ifoverisNone:over='rendered_view'" in s else 'unknown'
-    out['deriver_add_mapping'] = 'before=over,after=under' if 'derivers.add(name,deriver,before=over,after=under)' in s else 'unknown'
-    out['deriver_mapped_rule'] = ("ifVIEWinoverandname!='mapped_view':over=as_sorted_tuple(over+('mapped_view',))" in s)
-    out['deriver_sorted_tuples'] = ('over=as_sorted_tuple(over)under=as_sorted_tuple(under)' in s)
+    # --- add_view_deriver normalisation table
+    nm = obs.get('normalisation')
+    out['norm_probes'] = []
+    out['deriver_default_under'] = out['deriver_default_over'] = out['deriver_add_mapping'] = 'unknown'
+    out['deriver_mapped_rule'] = out['deriver_sorted_tuples'] = False
+    if _bad(nm) or len(nm) != 24:
+        unknown.append('add_view_deriver probe: %s' % _err(nm))
+    elif not all(_ident(r['name']) and _hint_ok(r['under']) and _hint_ok(r['over']) and _hint_ok(r['after'])
+                 and _hint_ok(r['before']) and r['after'] is not None and r['before'] is not None for r in nm):
+        unknown.append('add_view_deriver probe: unexpected values')
+    else:
+        out['norm_probes'] = nm
+        by = {(r['name'], json.dumps(r['under']), json.dumps(r['over'])): r for r in nm}
+
+        def row(name, under, over):
+            return by[(name, json.dumps(under), json.dumps(over))]
+        r0, r1 = row('p', None, None), row('p', ['a'], ['b'])
+        if not r1['rejected'] and (r1['after'], r1['before']) == (['a'], ['b']):
+            out['deriver_add_mapping'] = 'before=over,after=under'
+            if not r0['rejected'] and len(r0['after']) == 1 and len(r0['before']) == 1:
+                out['deriver_default_under'], out['deriver_default_over'] = r0['after'][0], r0['before'][0]
+        elif not r1['rejected'] and (r1['after'], r1['before']) == (['b'], ['a']):
+            out['deriver_add_mapping'] = 'before=under,after=over'
+            if not r0['rejected'] and len(r0['after']) == 1 and len(r0['before']) == 1:
+                out['deriver_default_under'], out['deriver_default_over'] = r0['before'][0], r0['after'][0]
+        r2, r3 = row('p', ['z', 'a', 'm'], ['y', 'b', 'n']), row('p', ['a'], ['VIEW'])
+        r4 = row('mapped_view', ['rendered_view'], ['VIEW'])
+        out['deriver_sorted_tuples'] = (not r2['rejected'] and sorted([r2['after'], r2['before']]) == [['a', 'm', 'z'], ['b', 'n', 'y']])
+        out['deriver_mapped_rule'] = (not r3['rejected'] and ['VIEW', 'mapped_view'] in (r3['after'], r3['before'])
+                                      and not r4['rejected'] and ['VIEW'] in (r4['after'], r4['before']))
 
     # --- _apply_view_derivers
-    f = _find_func(vt, 'ViewsConfiguratorMixin', '_apply_view_derivers')
-    s = _src(vsrc, f).replace(' ', '').replace('\n', '') if f else ''
-    outer = []
-    if f:
-        for st in f.body:
-            if isinstance(st, ast.Assign) and getattr(st.targets[0], 'id', None) == 'outer_derivers' and isinstance(st.value, ast.List):
-                outer = [el.elts[0].value if isinstance(el, ast.Tuple) and isinstance(el.elts[0], ast.Constant) else 'unknown' for el in st.value.elts]
-    out['outer_derivers'] = outer or ['unknown']
-    out['apply_reversed'] = ('forname,deriverinreversed(outer_derivers+derivers.sorted()):view=wraps_view(deriver)(view,info)' in s
-                             and 'view=info.original_view' in s)
+    ap = obs.get('apply')
+    out['outer_derivers'], out['apply_reversed'] = ['unknown'], False
+    if _bad(ap):
+        unknown.append('_apply_view_derivers probe: %s' % _err(ap))
+    else:
+        users, log = ap['users_sorted'], ap['log']
+        first_outermost = [['enter', users[0]], ['enter', users[1]], ['core'], ['exit', users[1]], ['exit', users[0]]] \
+            if len(users) == 2 else None
+        if log == first_outermost:
+            out['apply_reversed'] = True
+            srt, applied = ap['sorted'], ap['applied']
+            k = len(srt)
+            if (srt and applied[:k] == list(reversed(srt)) and len(applied) > k
+                    and not (set(applied[k:]) & set(srt)) and all(_ident(x) for x in applied)
+                    and len(set(applied)) == len(applied)):
+                out['outer_derivers'] = list(reversed(applied[k:]))
+            else:
+                unknown.append('_apply_view_derivers probe: applied functions %r do not end the reversed sorted chain' % (applied,))
+        else:
+            unknown.append('_apply_view_derivers probe: the deriver earlier in sorted() is not the outer one: %r' % (log,))
 
     # --- Tweens
-    f = _find_func(tt, 'Tweens', '__init__')
-    out['tween_sorter'] = _sorter_ctor(f, tsrc) if f else 'unknown'
-    f = _find_func(tt, 'Tweens', 'add_implicit')
-    s = _src(tsrc, f).replace(' ', '').replace('\n', '') if f else ''
-    out['tween_add_mapping'] = 'after=under,before=over' if 'self.sorter.add(name,factory,after=under,before=over)' in s else 'unknown'
-    f = _find_func(tt, 'Tweens', '__call__')
-    s = _src(tsrc, f).replace(' ', '').replace('\n', '') if f else ''
-    out['tween_call'] = ('explicit-else-implicit,reversed-fold'
-                         if 'ifself.explicit:use=self.explicitelse:use=self.implicit()forname,factoryinuse[::-1]:handler=factory(handler,registry)returnhandler' in s
-                         else 'unknown')
-    f = _find_func(tt, None, 'add_default_tweens')
-    s = _src(tsrc, f).replace(' ', '').replace('\n', '') if f else ''
-    out['default_tweens'] = ['EXCVIEW'] if s.endswith('self.add_tween(EXCVIEW)') else ['unknown']
-    summary.clear(); summary.update({k: out[k] for k in ('deriver_names', 'outer_derivers', 'deriver_sorter', 'tween_sorter', 'tween_call')})
+    tw = obs.get('tweens')
+    out['tween_sorter'] = 'unknown'
+    out['tween_add_mapping'] = out['tween_call'] = 'unknown'
+    out['default_tweens'], out['tween_call_probes'] = ['unknown'], []
+    if _bad(tw):
+        unknown.append('Tweens probe: %s' % _err(tw))
+    else:
+        out['tween_sorter'] = tw['ctor']
+        m = tw['mapping']
+        if m == [['y', 'x'], ['y', 'x'], ['x', 'y'], ['x', 'y']]:
+            out['tween_add_mapping'] = 'after=under,before=over'
+        elif m == [['x', 'y'], ['x', 'y'], ['y', 'x'], ['y', 'x']]:
+            out['tween_add_mapping'] = 'after=over,before=under'
+        else:
+            unknown.append('Tweens.add_implicit probe: %r' % (m,))
+        calls = tw['calls']
+        shape_ok = (len(calls) == 8 and all(isinstance(c['explicit'], list) and isinstance(c['implicit'], list)
+                                            and all(isinstance(x, int) and not isinstance(x, bool) for x in c['explicit'] + c['implicit'] + c['trace'])
+                                            for c in calls))
+        if shape_ok:
+            out['tween_call_probes'] = calls
+            if all(c['trace'] == _sim_trace(c['explicit'], c['implicit']) for c in calls):
+                out['tween_call'] = 'explicit-else-implicit,reversed-fold'
+            else:
+                unknown.append('Tweens.__call__ probe: a trace is not the first-is-outermost composition of explicit-or-implicit')
+        else:
+            unknown.append('Tweens.__call__ probe: unexpected values')
+        if tw['default_tweens'] and not tw['default_explicit'] and all(_ident(x) for x in tw['default_tweens']):
+            out['default_tweens'] = tw['default_tweens']
+        else:
+            unknown.append('default tweens probe: %r / %r' % (tw['default_tweens'], tw['default_explicit']))
+    out['unknown'] = unknown
+    # single-name view of the default chain, as the harness and earlier consumers read it
+    out['default_derivers'] = [{'name': d['name'], 'under': (d['under'][0] if d['under'] else None),
+                                'over': (d['over'][0] if d['over'] else None),
+                                'under_list': d['under'], 'over_list': d['over']} for d in out['default_derivers']]
+    summary.clear()
+    summary.update({k: out[k] for k in ('deriver_names', 'outer_derivers', 'deriver_sorter', 'tween_sorter', 'tween_call',
+                                        'deriver_add_mapping', 'tween_add_mapping', 'apply_reversed', 'default_tweens', 'unknown')})
+    summary['how'] = 'probed by running the tree under test (extract/c18.py child interpreter)'
+    summary['norm_probe_rows'] = len(out['norm_probes'])
+    summary['tween_call_probe_rows'] = len(out['tween_call_probes'])
     return out
 
 
@@ -137,44 +433,91 @@ def _lopt(v):
     return 'none' if v is None else 'some ' + _lstr(v)
 
 
+def _llist(v):
+    return '[' + ', '.join(_lstr(x) for x in v) + ']'
+
+
+def _loptlist(v):
+    return 'none' if v is None else '(some ' + _llist(v) + ')'
+
+
+def _lbool(b):
+    return 'true' if b else 'false'
+
+
+def _lint(i):
+    return '(%d)' % i if i < 0 else str(i)
+
+
 def _ctor(c):
-    if c == 'unknown' or not isinstance(c, dict):
+    if c == 'unknown' or not isinstance(c, dict) or not all(k in c for k in ('default_before', 'default_after', 'first', 'last')) \
+            or not all(c[k] is None or isinstance(c[k], str) for k in ('default_before', 'default_after')) \
+            or not all(isinstance(c[k], str) for k in ('first', 'last')):
         return '{ defaultBefore := some "unknown", defaultAfter := some "unknown", first := "unknown", last := "unknown" }'
     return '{ defaultBefore := %s, defaultAfter := %s, first := %s, last := %s }' % (
-        _lopt(c.get('default_before', 'LAST')), _lopt(c.get('default_after')), _lstr(c.get('first', 'FIRST')), _lstr(c.get('last', 'LAST')))
+        _lopt(c['default_before']), _lopt(c['default_after']), _lstr(c['first']), _lstr(c['last']))
 
 
 def generate(src_root):
     f = facts(src_root)
-    L = ['/-! GENERATED by extract/c18.py from src/pyramid/config/views.py and config/tweens.py — do not edit. -/',
+    L = ['/-! GENERATED by extract/c18.py by RUNNING src/pyramid (config/views.py, config/tweens.py, util.py) on probe inputs — do not edit.',
+         '"unknown" / false / empty tables mean a probe failed or was inconsistent. -/',
          'namespace Pyr.Gen.C18', '',
-         'structure RawDeriver where', '  name : String', '  under : Option String', '  over : Option String', 'deriving Repr, DecidableEq', '',
+         '/-- one `add_view_deriver(d, name=…, under=…, over=…)` call; a hint is `none` (not given) or the list of names given',
+         '(a single string is the one-element list) -/',
+         'structure RawDeriver where', '  name : String', '  under : Option (List String)', '  over : Option (List String)', 'deriving Repr, DecidableEq', '',
          'structure SorterCtor where', '  defaultBefore : Option String', '  defaultAfter : Option String', '  first : String', '  last : String', 'deriving Repr, DecidableEq', '',
-         '/-- the calls `add_default_view_derivers` makes, in order: `add_view_deriver(d, name=…, under=…, over=…)` -/',
+         '/-- one probe call of `add_view_deriver` and what reached the sorter (`name2after[name]`, `name2before[name]`) -/',
+         'structure NormProbe where', '  raw : RawDeriver', '  rejected : Bool', '  after : List String', '  before : List String', 'deriving Repr, DecidableEq', '',
+         '/-- one name of the real default sorter: `name2after.get`, `name2before.get`, `in req_after`, `in req_before` -/',
+         'structure SorterEntry where', '  name : String', '  after : Option (List String)', '  before : Option (List String)',
+         '  reqAfter : Bool', '  reqBefore : Bool', 'deriving Repr, DecidableEq', '',
+         '/-- the calls `add_default_view_derivers` was observed to make, in order -/',
          'def defaultDerivers : List RawDeriver := [']
-    L += ['  ⟨%s, %s, %s⟩,' % (_lstr(d['name']), _lopt(d['under']), _lopt(d['over'])) for d in f['default_derivers']]
+    L += ['  ⟨%s, %s, %s⟩,' % (_lstr(d['name']), _loptlist(d['under_list']), _loptlist(d['over_list'])) for d in f['default_derivers']]
     L[-1] = L[-1].rstrip(',')
     L += [']', '',
+          '/-- the state of the real `IViewDerivers` sorter after those calls, per name in `names` order -/',
+          'def defaultSorterState : List SorterEntry := [']
+    ent = ['  ⟨%s, %s, %s, %s, %s⟩' % (_lstr(e['name']), _loptlist(e['after']), _loptlist(e['before']), _lbool(e['req_after']), _lbool(e['req_before']))
+           for e in f['default_sorter_state']]
+    L += [',\n'.join(ent)] if ent else []
+    L += [']', '/-- its `order` attribute (the arcs) -/',
+          'def defaultSorterOrder : List (String × String) := [' + ', '.join('(%s, %s)' % (_lstr(a), _lstr(b)) for a, b in f['default_sorter_order']) + ']', '',
           'def deriverSorter : SorterCtor := ' + _ctor(f['deriver_sorter']),
           'def deriverDefaultUnder : String := ' + _lstr(f['deriver_default_under']),
           'def deriverDefaultOver : String := ' + _lstr(f['deriver_default_over']),
-          '/-- `derivers.add(name, deriver, before=over, after=under)` -/',
+          '/-- `under` reaches the sorter as `after`, `over` as `before` (observed) -/',
           'def deriverAddMapping : String := ' + _lstr(f['deriver_add_mapping']),
-          'def deriverMappedRule : Bool := ' + ('true' if f['deriver_mapped_rule'] else 'false'),
-          'def deriverSortedTuples : Bool := ' + ('true' if f['deriver_sorted_tuples'] else 'false'),
-          'def outerDerivers : List String := [' + ', '.join(_lstr(x) for x in f['outer_derivers']) + ']',
-          '/-- `for name, deriver in reversed(outer_derivers + derivers.sorted()): view = wraps_view(deriver)(view, info)` -/',
-          'def applyReversed : Bool := ' + ('true' if f['apply_reversed'] else 'false'), '',
+          'def deriverMappedRule : Bool := ' + _lbool(f['deriver_mapped_rule']),
+          'def deriverSortedTuples : Bool := ' + _lbool(f['deriver_sorted_tuples']),
+          '/-- probe calls of `add_view_deriver` on a fresh configurator each -/',
+          'def normProbes : List NormProbe := [']
+    rows = ['  ⟨⟨%s, %s, %s⟩, %s, %s, %s⟩' % (_lstr(r['name']), _loptlist(r['under']), _loptlist(r['over']), _lbool(r['rejected']),
+                                              _llist(r['after']), _llist(r['before'])) for r in f['norm_probes']]
+    L += [',\n'.join(rows)] if rows else []
+    L += [']',
+          '/-- the fixed wrappers applied outside the sorted chain (observed while a view was derived), outermost first -/',
+          'def outerDerivers : List String := ' + _llist(f['outer_derivers']),
+          '/-- of two logging derivers the one earlier in `sorted()` is entered first -/',
+          'def applyReversed : Bool := ' + _lbool(f['apply_reversed']), '',
           'def tweenSorter : SorterCtor := ' + _ctor(f['tween_sorter']),
-          '/-- `self.sorter.add(name, factory, after=under, before=over)` -/',
+          '/-- `add_implicit`: `under` reaches the sorter as `after`, `over` as `before` (observed through `implicit()`) -/',
           'def tweenAddMapping : String := ' + _lstr(f['tween_add_mapping']),
           'def tweenCall : String := ' + _lstr(f['tween_call']),
-          'def defaultTweens : List String := [' + ', '.join(_lstr(x) for x in f['default_tweens']) + ']',
+          '/-- `Tweens.__call__` observed: (explicit list, `implicit()` list, trace of one call of the composed handler;',
+          'n ≥ 0: tween n entered, −(n+1): tween n left, 1000000: the innermost handler ran) -/',
+          'def tweenCallProbes : List (List Nat × List Nat × List Int) := [']
+    tc = ['  ([%s], [%s], [%s])' % (', '.join(map(str, c['explicit'])), ', '.join(map(str, c['implicit'])), ', '.join(_lint(x) for x in c['trace']))
+          for c in f['tween_call_probes'] if all(x >= 0 for x in c['explicit'] + c['implicit'])]
+    L += [',\n'.join(tc)] if tc else []
+    L += [']',
+          'def defaultTweens : List String := ' + _llist(f['default_tweens']),
           '', 'end Pyr.Gen.C18', '']
     return {'PyramidModel/Gen/C18.lean': '\n'.join(L)}
 
 
 if __name__ == '__main__':
-    import sys, json
-    print(json.dumps(facts(sys.argv[1] if len(sys.argv) > 1 else '/repo/src'), indent=1))
-    print(generate(sys.argv[1] if len(sys.argv) > 1 else '/repo/src')['PyramidModel/Gen/C18.lean'])
+    root = sys.argv[1] if len(sys.argv) > 1 else '/repo/src'
+    print(json.dumps(facts(root), indent=1))
+    print(generate(root)['PyramidModel/Gen/C18.lean'])
